@@ -7,6 +7,7 @@ pub mod checks;
 #[cfg(feature = "explore")]
 pub mod explore;
 pub mod explore_free;
+pub mod readers;
 pub mod refmodel;
 pub mod report;
 pub mod streams;
@@ -54,10 +55,12 @@ pub fn run_check(id: &str, r: &mut Report, ctx: &Ctx) -> bool {
         "C06" => checks::c06::run(r, ctx),
         "C10" => checks::c10::run(r, ctx),
         "C11" => checks::c11::run(r, ctx),
+        "C12" => checks::c12::run(r, ctx),
         "C13" => checks::c13::run(r, ctx),
         "C14" => checks::c14::run(r, ctx),
         "C08" => checks::c08::run(r, ctx),
         "C09" => checks::c09::run(r, ctx),
+        "C17" => checks::c17::run(r, ctx),
         _ => return false,
     }
     true
@@ -73,10 +76,12 @@ pub fn replay(id: &str, case: &serde_json::Value) -> Result<(), String> {
         "C06" => checks::c06::replay(case),
         "C10" => checks::c10::replay(case),
         "C11" => checks::c11::replay(case),
+        "C12" => checks::c12::replay(case),
         "C13" => checks::c13::replay(case),
         "C14" => checks::c14::replay(case),
         "C08" => checks::c08::replay(case),
         "C09" => checks::c09::replay(case),
+        "C17" => checks::c17::replay(case),
         _ => Err(format!("no replay for {id}")),
     }
 }
